@@ -599,3 +599,32 @@ def run(chk):
                     "objects are never destroyed during a history (destruction of a registered Model/Parameter is outside the model)"]
     chk.assumptions += ["Model / Parameter / Optimizer objects outlive every registry that refers to them (the registries hold raw pointers)",
                         "single-threaded use"]
+
+
+def replay(path):
+    """Re-runs the history of a replay file on a fresh build of the working
+    tree, on the Lean model and on the specification; exit status 1 when the
+    implementation departs from the specification or from the model."""
+    import json
+    from vlib import lean
+    obj = json.load(open(path))
+    rp = obj.get("replay", {})
+    print("replay of C16: %s" % obj.get("what", "")[:300])
+    if "lines" not in rp:
+        print(json.dumps(rp, indent=1)[:3000])
+        return 0
+    exe = build.build_harness(HARNESS)
+    lean.lake(["build", "drv_" + FAMILY])
+    lines = rp["lines"]
+    impl, reports = vrun.run_impl(exe, lines, stateful=True, timeout=120)
+    model = vrun.run_model(FAMILY, lines)
+    sp = Spec()
+    bad = 0
+    for l, i, m in zip(lines, impl, model):
+        e = "-" if i == "skipped" else sp.expect(l, i)[0]
+        ok = i == "skipped" or (i == e and vrun.same(i, m))
+        bad += 0 if ok else 1
+        print("%s %s\n    impl : %s\n    model: %s\n    spec : %s" % (" " if ok else "!", l, i, m, e))
+    for r in reports:
+        print("crash report:", r["kind"], (r.get("stderr") or "")[-600:])
+    return 1 if bad else 0
